@@ -25,7 +25,7 @@ func genC18(tier string, seed int64) (*Family, error) {
 	}
 	fam.Outside = []string{"blocks with more members than the bound", "members with side effects on shared injected data that the host itself does not synchronise"}
 	maxK := 2
-	kinds := []byte{'A', 'I', 'F', 'M', 'T'}
+	kinds := []byte{'A', 'I', 'F', 'M', 'T', 'L'}
 	var combos []string
 	var rec func(cur string, k int)
 	rec = func(cur string, k int) {
@@ -39,7 +39,7 @@ func genC18(tier string, seed int64) (*Family, error) {
 	}
 	rec("", maxK)
 	// larger blocks: one of each kind, and repeated kinds
-	combos = append(combos, "AIF", "MTA", "AAA", "FMT", "IIA", "TFA")
+	combos = append(combos, "AIF", "MTA", "AAA", "FMT", "IIA", "TFA", "LAI", "ALL")
 	if tier == "thorough" {
 		combos = nil
 		rec("", 3)
@@ -97,13 +97,15 @@ func w(i, x int64, p bool) int64 {
 				members = append(members, "  obj.Do("+k+", p"+k+")")
 			case 'T':
 				members = append(members, "  obj.Inner.Do("+k+", p"+k+")")
+			case 'L':
+				members = append(members, "  loc.Do("+k+", p"+k+")")
 			}
 		}
 		retExpr := "7"
 		if len(sum) > 0 {
 			retExpr = strings.Join(sum, " + ")
 		}
-		text := "rule \"r\" begin\n conc {\n" + strings.Join(members, "\n") + "\n }\n ev(\"after\")\n r = " + retExpr + "\n return r\nend\n"
+		text := "rule \"r\" begin\n loc = mkobj()\n conc {\n" + strings.Join(members, "\n") + "\n }\n ev(\"after\")\n r = " + retExpr + "\n return r\nend\n"
 		k := len(combo)
 		var want []string
 		for i, c := range combo {
@@ -128,6 +130,7 @@ func %s() {
 	dc.Add("obj", obj)
 	dc.Add("w", w)
 	dc.Add("fn", member)
+	dc.Add("mkobj", func() *Obj { return &Obj{Inner: &Inner{}} })
 	rb := buildText(dc, %q)
 	eng := engine.NewGengine()
 	err := eng.Execute(rb, true)
